@@ -127,3 +127,35 @@ func captureGen(g *gen, f func(*gen)) []string {
 	}
 	return out
 }
+
+func init() {
+	// C17: the per-type kernels are reached through the operation matrices of C06, C11, C12 and C08
+	generators["C17"] = func(g *gen) {
+		for _, f := range []func(*gen){genC06, genC11, genC12} {
+			for i, line := range captureGen(g, f) {
+				if !g.thorough() && i%2 != 0 {
+					continue
+				}
+				j := strings.Index(line, " ; ")
+				if j < 0 {
+					continue
+				}
+				g.n++
+				fmt.Fprintf(g.w, "%s%d%s\n", g.pfx, g.n, line[j:])
+			}
+		}
+		if f, ok := generators["C08"]; ok {
+			for i, line := range captureGen(g, f) {
+				if !g.thorough() && i%2 != 0 {
+					continue
+				}
+				j := strings.Index(line, " ; ")
+				if j < 0 {
+					continue
+				}
+				g.n++
+				fmt.Fprintf(g.w, "%s%d%s\n", g.pfx, g.n, line[j:])
+			}
+		}
+	}
+}
